@@ -260,6 +260,55 @@ def unit_bounded_handlers(eng, tier="quick"):
     return c07.unit_bounded_handlers(eng, tier=tier)
 
 
+def _literal_programs(tier="quick"):
+    import itertools
+    alphabet = ["a", "\\", "q", "x", "4", "'", '"', "n"] + ([] if tier == "quick" else ["/", " ", "\n", "G"])
+    bodies = ["".join(t) for n in range(0, 4) for t in itertools.product(alphabet, repeat=n)]
+    progs = []
+    for b in bodies:
+        for q in "'\"":
+            for ctxt in ("mov #%s, r0\n", ".word %s\n", "x = %s\n.byte x\n"):
+                progs.append(ctxt % (q + b))
+    return alphabet, progs
+
+
+def _run_literal_programs(tree, progs):
+    code = r'''
+from pdpy11 import reports
+from pdpy11.parser import parse
+from pdpy11.compiler import Compiler
+out = []
+for src in %r:
+    errs = []
+    try:
+        with reports.handle_reports(lambda p, i, *l: errs.append(i) if p is not reports.warning else None):
+            Compiler().compile_and_link_files([parse("t.mac", src)])
+        out.append("ok" if not errs else "silent-error:" + errs[0])
+    except reports.UnrecoverableError:
+        out.append("fail" if errs else "fail-without-report")
+    except Exception as e:
+        out.append("crash:" + type(e).__name__)
+result = out
+''' % (progs,)
+    res = driver.native([{"kind": "py", "code": code}], tree, timeout=1800)[0]
+    if res["status"] != "ok":
+        return None, str(res)[:300]
+    return res["result"], None
+
+
+def unit_bounded_literals(eng, tier="quick"):
+    """bounded stand-in for the character-literal scanner (parser code, outside the subset): every ' / " literal whose body is at most 3 characters over an
+    alphabet with the escape- and quote-relevant characters (incl. unknown escapes followed by the C-style closing quote), in three operand positions:
+    the run ends in a result or in a reported error"""
+    alphabet, progs = _literal_programs(tier)
+    out, err = _run_literal_programs(driver.tree_root(), progs)
+    bad = [err] if err else [(p_, o_) for p_, o_ in zip(progs, out) if o_ not in ("ok", "fail")]
+    ob = dict(label="character-literals:every-literal-ends-in-a-result-or-a-reported-error", kind="bounded", status="proved" if progs and not bad else "failed", secs=0.0, path=[], witness=None,
+              detail=str(bad[:5]), events=[], smt2=None, backend="cpython-native", unit="bounded-literals", func="parser.single_quoted_literal / double_quoted_literal / string_escape (bounded stand-in)",
+              bound="every ' and \" literal with a body of length <= 3 over %r in 3 operand positions (%d programs)" % (alphabet, len(progs)), cases=len(progs), cfg=dict(kind="bounded-literals", tier=tier))
+    return dict(unit="bounded-literals", func="parser.single_quoted_literal / double_quoted_literal / string_escape (bounded stand-in)", paths=len(progs), obligations=[ob], wall=0.0)
+
+
 def unit_open_device(eng=None):
     """devices.open_device is where every output (and the listing) is opened; its callers handle IOError only: for every kind of bad path it
     returns a file object or raises IOError (OSError) - checked on the real function"""
@@ -351,7 +400,7 @@ def units(tier):
     us = [("mutation[%d]" % k, "unit_mutation", dict(shard=k, tier=tier)) for k in range(MUT_SHARDS)]
     for which, flag in (("get_as_int", None), ("get_as_int", False), ("get_as_str", None)):
         us.append(("%s[cyclic,%s]" % (which, flag), "unit_get_cyclic", dict(which=which, flag=flag)))
-    us += [("random-programs", "unit_random_programs", dict(tier=tier)), ("self-reference", "unit_self_reference", {}), ("open_device", "unit_open_device", {}), ("bounded-handlers", "unit_bounded_handlers", dict(tier=tier)), ("align", "unit_align_total", {}), ("bin", "unit_bin", {}),
+    us += [("random-programs", "unit_random_programs", dict(tier=tier)), ("self-reference", "unit_self_reference", {}), ("open_device", "unit_open_device", {}), ("bounded-handlers", "unit_bounded_handlers", dict(tier=tier)), ("bounded-literals", "unit_bounded_literals", dict(tier=tier)), ("align", "unit_align_total", {}), ("bin", "unit_bin", {}),
           ("awaiting", "unit_awaiting", {}), ("wait", "unit_wait", {}), ("wait-chain", "unit_wait_chain", {}), ("promise", "unit_promise", {}), ("number", "unit_number", {}), ("encode", "unit_encode", {}),
           ("charliteral", "unit_charliteral", {}), ("include", "unit_include", {}), ("insert_file", "unit_insert_file", {}), ("repeat", "unit_repeat", {}),
           ("resolve-register", "unit_resolve_register", {}), ("try_as_register", "unit_try_as_register", {}), ("try_accumulator", "unit_try_accumulator", {})]
@@ -459,6 +508,11 @@ def replay(o, tree):
             if out not in ("ok", "fail"):
                 bad.append((sig, s_, out))
         return dict(jobs=[{"kind": "asm", "sources": [b[1] + "\n"]} for b in bad[:4]], expected="ok or fail (a result or a reported error)", observed=bad, reproduced=bool(bad))
+    if k == "bounded-literals":
+        _, progs = _literal_programs(cfg.get("tier", "quick"))
+        out, err = _run_literal_programs(tree, progs)
+        bad = [] if err else [(p_, o_) for p_, o_ in zip(progs, out) if o_ not in ("ok", "fail")]
+        return dict(jobs=[{"kind": "asm", "sources": [b[0]]} for b in bad[:4]], expected="ok or fail (a result or a reported error)", observed=bad[:8], reproduced=bool(bad))
     if k == "pct":
         spell = {"(%e)": "(%x)", "@%e": "@%x", "(%e)+": "(%x)+", "@(%e)+": "@(%x)+", "-(%e)": "-(%x)", "@-(%e)": "@-(%x)", "x(%e)": "2(%x)", "@x(%e)": "@2(%x)", "@(%e)": "@(%x)",
                  "a-b(%e)": "tab-2(%x)", "@a+b(%e)": "@tab+2(%x)", "-a(%e)": "-2(%x)"}[cfg["shape"]]
